@@ -10,6 +10,7 @@
 #include <fstream>
 #include <map>
 #include <memory>
+#include <new>
 #include <sstream>
 
 #include <signal.h>
@@ -17,6 +18,7 @@
 #include <unistd.h>
 
 extern "C" void __sanitizer_set_death_callback(void (*)(void)) __attribute__((weak));
+
 
 namespace sim
 {
@@ -38,6 +40,7 @@ struct TaskSpec
 {
   std::string name;
   std::vector<Op> ops;
+  int pre = 0;   // runs (to completion) after the ports are bound but BEFORE FinalConstruct
 };
 struct Unbind
 {
@@ -61,6 +64,8 @@ struct Run
   int templog = 0;
   int lazycomp = 0;   // the wrapped component does not look up the runtime itself (a hand-written component need not)
   int idquery = 0;    // ask for the client identifiers after this many registrations (0 = only at the end)
+  int reentry = 0;    // the user's log sink registers one more client ('monitor') when it receives its k-th message
+  int sibling = 0;    // 1/2: a second, independent instance of the same shell type lives in the process (set up before / after the main one)
   std::vector<TaskSpec> tasks;
   std::map<std::pair<int, int>, std::vector<Script>> scripts;
 };
@@ -101,7 +106,24 @@ static std::string sanitize(const std::string& in)
   if (s.size() > 200) s.resize(200);
   return s.empty() ? "-" : s;
 }
-static void rec(const std::string& s) { sim_rec(s.c_str()); }
+// A sibling instance of the same shell type (fault kind "more than one instance per process"): set up quietly, then idle.
+// Anything that reaches it afterwards is cross-talk; at the end it must still be exactly as it was left.
+static void* g_sib_shell = nullptr;
+static void* g_sib_comp = nullptr;
+static std::vector<void*> g_sib_inner;
+// cross-task state lives in kernel counters (invisible to TSan, like all harness state):
+static const int CTR_SIB_PHASE = 9;    // 0 = none/idle (nothing may reach the sibling), 1 = being set up, 2 = being inspected
+static const int CTR_QUIET = 10;       // records of the sibling's own set-up are not part of the judged history
+static const int CTR_SIB_NDELIV = 11;  // out-events the sibling's user side received while being inspected
+static const int CTR_SIB_LASTCL = 12;  // ... and the client that got the last one
+static const int CTR_FCSTATE = 13;     // 0 = FinalConstruct not called yet, 1 = inside, 2 = returned, 3 = threw
+static const int CTR_LOGCOUNT = 14;    // messages the user's log sink has received
+static void set_ctr(int c, long v) { sim_ctr_add(c, v - sim_ctr_get(c)); }
+static void rec(const std::string& s)
+{
+  if (sim_ctr_get(CTR_QUIET) && s.compare(0, 7, "sibling") != 0 && s.compare(0, 5, "xtalk") != 0) return;
+  sim_rec(s.c_str());
+}
 
 struct UserSvc
 {
@@ -121,6 +143,7 @@ long long call_begin(const EvCtx& c, const std::vector<long long>& in)
   const int me = sim_self();
   const long long cid = sim_ctr_add(CTR_CID, 1) - 1;
   tl_frames.push_back({cid, sim_ctr_get(CTR_WAITS_BASE + me), sim_ctr_get(CTR_POSTS_BASE + me)});
+  if (c.side >= 2) return cid;
   rec("call cid=" + std::to_string(cid) + " ev=" + std::to_string(c.ev) + " side=" + (c.side ? "i" : "o") +
       " cl=" + std::to_string(c.client) + " in=" + join(in));
   return cid;
@@ -131,6 +154,7 @@ void call_end(const EvCtx& c, long long cid, bool has_reply, long long reply, co
   const int me = sim_self();
   CallFrame f = tl_frames.back();
   tl_frames.pop_back();
+  if (c.side >= 2) return;
   rec("ret cid=" + std::to_string(cid) + " ev=" + std::to_string(c.ev) + " reply=" + (has_reply ? std::to_string(reply) : std::string("-")) +
       " out=" + join(out) + " waits=" + std::to_string(sim_ctr_get(CTR_WAITS_BASE + me) - f.waits) +
       " posts=" + std::to_string(sim_ctr_get(CTR_POSTS_BASE + me) - f.posts));
@@ -138,6 +162,21 @@ void call_end(const EvCtx& c, long long cid, bool has_reply, long long reply, co
 
 HandlerPlan handler_enter(const EvCtx& c, const std::vector<long long>& in, size_t n_out, std::vector<long long>& out)
 {
+  if (c.side >= 2)
+  {  // a handler of the sibling instance (2 = its wrapped component, 3 = its user side)
+    HandlerPlan sib;
+    sib.hid = -1;
+    sib.reply = (c.side == 2 && c.ev == g_model.claim_ev) ? g_model.grant_value : 0;
+    if (sim_ctr_get(CTR_SIB_PHASE) == 0)
+      rec("xtalk ev=" + std::to_string(c.ev) + " side=" + (c.side == 2 ? "i" : "o") + " cl=" + std::to_string(c.client) + " in=" + join(in));
+    else if (c.side == 3)
+    {
+      sim_ctr_add(CTR_SIB_NDELIV, 1);
+      set_ctr(CTR_SIB_LASTCL, c.client);
+    }
+    for (size_t i = 0; i < n_out; ++i) out.push_back(0);
+    return sib;
+  }
   const int me = sim_self();
   HandlerPlan plan;
   plan.hid = sim_ctr_add(CTR_HID, 1) - 1;
@@ -183,7 +222,11 @@ void handler_follow(const EvCtx& c, const HandlerPlan& plan)
   }
 }
 
-void handler_exit(const EvCtx&, const HandlerPlan& plan) { rec("hdl_end hid=" + std::to_string(plan.hid)); }
+void handler_exit(const EvCtx& c, const HandlerPlan& plan)
+{
+  if (c.side >= 2) return;
+  rec("hdl_end hid=" + std::to_string(plan.hid));
+}
 
 __attribute__((noinline)) void scrub_stack()
 {
@@ -195,6 +238,21 @@ __attribute__((noinline)) void scrub_stack()
 void log_sink(char level, const std::string& msg)
 {
   rec(std::string("log lvl=") + level + " msg=" + sanitize(msg));
+  if (g_run.reentry > 0 && !sim_ctr_get(CTR_QUIET) && sim_ctr_add(CTR_LOGCOUNT, 1) == g_run.reentry && g_shell && g_model.mc_port >= 0)
+  {
+    // fault kind "user callback re-enters the shell": the sink is user code and may use the shell's public interface -
+    // here it registers a client of its own, whose events nobody binds
+    const std::string st = std::to_string(sim_ctr_get(CTR_FCSTATE));
+    try
+    {
+      g_model.ports[static_cast<size_t>(g_model.mc_port)].outer(g_shell, "monitor");
+      rec("monitor_registered result=ok fcstate=" + st);
+    }
+    catch (const std::exception& e)
+    {
+      rec("monitor_registered result=throw fcstate=" + st + " what=" + sanitize(e.what()));
+    }
+  }
   sim_yield(YK_LOG);
   for (int i = 0; i < g_run.slowlog; ++i) sim_yield(YK_LOG);  // fault kind: slow log sink
 }
@@ -209,6 +267,18 @@ static bool is_unbound(int side, int ev, int client)
   return false;
 }
 
+// Fault kind "the storage of the shell object is not zero-filled" (a stack frame, a recycled heap block): the glue
+// constructs the shell with placement new in a block filled with 0xBE, under every sanitizer flavour alike, so that a
+// member nobody initialises reads the same garbage in every execution.
+void* garbage_block(size_t n)
+{
+  void* p = std::malloc(n ? n : 1);
+  if (!p) throw std::bad_alloc();
+  std::memset(p, 0xBE, n);
+  return p;
+}
+void release_block(void* p) { std::free(p); }
+
 dzn::runtime& component_runtime(const dzn::locator& loc)
 {
   // A Dezyne-generated component looks the runtime up in its constructor (and so fails on a locator without one); a
@@ -221,6 +291,19 @@ dzn::runtime& component_runtime(const dzn::locator& loc)
 
 void component_constructed(void* comp, const dzn::locator& loc)
 {
+  if (sim_ctr_get(CTR_SIB_PHASE) == 1)
+  {
+    g_sib_comp = comp;
+    g_sib_inner.assign(g_model.ports.size(), nullptr);
+    for (size_t pi = 0; pi < g_model.ports.size(); ++pi) g_sib_inner[pi] = g_model.ports[pi].inner(comp);
+    for (size_t ei = 0; ei < g_model.events.size(); ++ei)
+    {
+      EventDesc& e = g_model.events[ei];
+      const PortDesc& pd = g_model.ports[static_cast<size_t>(e.port)];
+      if ((pd.provides && e.is_in) || (!pd.provides && !e.is_in)) e.bind(g_sib_inner[static_cast<size_t>(e.port)], EvCtx{static_cast<int>(ei), 2, -1});
+    }
+    return;
+  }
   g_comp = comp;
   std::string s = "comp_ctor phase=" + std::to_string(sim_ctr_get(CTR_PHASE));
   dzn::pump* p = loc.try_get<dzn::pump>();
@@ -453,6 +536,138 @@ static std::string contents_digest(const dzn::locator& l)
   return s.empty() ? "-" : s;
 }
 
+// ---- the sibling instance ---------------------------------------------------------------------------------------
+struct Sibling
+{
+  dzn::locator loc;
+  std::unique_ptr<dzn::pump> pump;
+  std::unique_ptr<dzn::runtime> rt;
+  std::vector<std::vector<void*>> outer;
+  int holder = -1;
+};
+static std::unique_ptr<Sibling> g_sib;
+static dzn::meta g_sib_parent{"sibling_parent", "SiblingParent", nullptr, {}, {}, {}};
+
+static void sibling_setup()
+{
+  Run& R = g_run;
+  g_sib.reset(new Sibling);
+  Sibling& S = *g_sib;
+  set_ctr(CTR_QUIET, 1);
+  set_ctr(CTR_SIB_PHASE, 1);
+  bool ok = false;
+  try
+  {
+    if (R.loc_pump)
+    {
+      S.pump.reset(new dzn::pump);
+      S.loc.set(*S.pump);
+    }
+    if (R.loc_runtime)
+    {
+      S.rt.reset(new dzn::runtime);
+      S.loc.set(*S.rt);
+    }
+    S.outer.assign(g_model.ports.size(), {});
+    for (size_t pi = 0; pi < g_model.ports.size(); ++pi)
+    {
+      PortDesc& pd = g_model.ports[pi];
+      if (pd.sem != 3) continue;
+      void* obj = pd.make_injected();
+      S.outer[pi].push_back(obj);
+      for (size_t ei = 0; ei < g_model.events.size(); ++ei)
+      {
+        EventDesc& e = g_model.events[ei];
+        if (e.port == static_cast<int>(pi) && outer_handles(e)) e.bind(obj, EvCtx{static_cast<int>(ei), 3, -1});
+      }
+      pd.put_injected(S.loc, obj);
+    }
+    g_sib_shell = g_model.shell.construct(S.loc, "sibling_" + R.id);
+    for (size_t pi = 0; pi < g_model.ports.size(); ++pi)
+    {
+      PortDesc& pd = g_model.ports[pi];
+      if (pd.sem == 3) continue;
+      if (pd.sem == 2)
+        for (int k = 0; k < R.n_clients; ++k) S.outer[pi].push_back(pd.outer(g_sib_shell, R.client_names[static_cast<size_t>(k)]));
+      else
+        S.outer[pi].push_back(pd.outer(g_sib_shell, ""));
+    }
+    for (size_t ei = 0; ei < g_model.events.size(); ++ei)
+    {
+      EventDesc& e = g_model.events[ei];
+      PortDesc& pd = g_model.ports[static_cast<size_t>(e.port)];
+      if (pd.sem == 3 || !outer_handles(e)) continue;
+      for (size_t k = 0; k < S.outer[static_cast<size_t>(e.port)].size(); ++k)
+        e.bind(S.outer[static_cast<size_t>(e.port)][k], EvCtx{static_cast<int>(ei), 3, pd.sem == 2 ? static_cast<int>(k) : -1});
+    }
+    g_model.shell.final_construct(g_sib_shell, &g_sib_parent, false);
+    if (g_model.mc_port >= 0 && R.n_clients > 0)
+    {  // its last client claims (the sibling's component always grants) and keeps the claim for the rest of the run
+      const int k = R.n_clients - 1;
+      const EventDesc& claim = g_model.events[static_cast<size_t>(g_model.claim_ev)];
+      CallResult r = claim.call(S.outer[static_cast<size_t>(g_model.mc_port)][static_cast<size_t>(k)], EvCtx{g_model.claim_ev, 3, k});
+      if (r.has_reply && r.reply == g_model.grant_value) S.holder = k;
+    }
+    ok = true;
+  }
+  catch (const std::exception& e)
+  {
+    set_ctr(CTR_QUIET, 0);
+    rec("sibling_setup result=throw what=" + sanitize(e.what()));
+  }
+  set_ctr(CTR_QUIET, 0);
+  set_ctr(CTR_SIB_PHASE, 0);
+  if (ok) rec("sibling_setup result=ok holder=" + std::to_string(S.holder));
+  else
+  {
+    g_sib_shell = nullptr;   // a world in which construction is impossible: nothing to compare against
+  }
+}
+
+static void sibling_check()
+{
+  if (!g_sib || !g_sib_shell) return;
+  Run& R = g_run;
+  Sibling& S = *g_sib;
+  set_ctr(CTR_QUIET, 1);
+  set_ctr(CTR_SIB_PHASE, 2);
+  set_ctr(CTR_SIB_NDELIV, 0);
+  set_ctr(CTR_SIB_LASTCL, -1);
+  std::string verdict;
+  try
+  {
+    const bool parent_ok = g_model.shell.comp_parent(g_sib_comp) == &g_sib_parent;
+    bool ids_ok = true;
+    std::string delivered = "-";
+    if (g_model.mc_port >= 0)
+    {
+      std::vector<std::string> want(R.client_names.begin(), R.client_names.begin() + R.n_clients);
+      std::sort(want.begin(), want.end());
+      std::vector<std::string> got = g_model.shell.client_ids(g_sib_shell, g_model.mc_port);
+      std::sort(got.begin(), got.end());
+      ids_ok = got == want;
+      for (size_t ei = 0; ei < g_model.events.size(); ++ei)
+      {
+        const EventDesc& e = g_model.events[ei];
+        if (e.port != g_model.mc_port || e.is_in) continue;
+        e.call(g_sib_inner[static_cast<size_t>(e.port)], EvCtx{static_cast<int>(ei), 2, -1});   // its component raises one out-event
+        const long n = sim_ctr_get(CTR_SIB_NDELIV);
+        delivered = n == 0 ? std::string("none") : n == 1 ? std::to_string(sim_ctr_get(CTR_SIB_LASTCL)) : std::string("many");
+        break;
+      }
+    }
+    verdict = std::string("parent_ok=") + (parent_ok ? "1" : "0") + " ids_ok=" + (ids_ok ? "1" : "0") + " delivered=" + delivered +
+              " holder=" + std::to_string(S.holder);
+  }
+  catch (const std::exception& e)
+  {
+    verdict = "exc=" + sanitize(e.what());
+  }
+  set_ctr(CTR_QUIET, 0);
+  set_ctr(CTR_SIB_PHASE, 0);
+  rec("sibling_check " + verdict);
+}
+
 static void death_callback() { sim_flush(99); }
 
 static void execute_run(int out_fd)
@@ -507,6 +722,7 @@ static void execute_run(int out_fd)
     }
     const std::string proto_before = contents_digest(uloc);
     rec("user_locator entries=" + proto_before);
+    if (R.sibling == 1) sibling_setup();
 
     // ---- construct the shell
     sim_ctr_add(CTR_PHASE, 1);
@@ -614,12 +830,35 @@ static void execute_run(int out_fd)
       e.unbind(g_outer_obj[static_cast<size_t>(e.port)][k]);
     }
 
+    // ---- clients that use their (bound) ports before the user gets round to FinalConstruct
+    {
+      bool any = false;
+      for (auto& t : R.tasks)
+        if (t.pre)
+        {
+          sim_spawn(t.name.c_str(), &task_body, &t, 0, 0);
+          any = true;
+        }
+      if (any)
+      {
+        sim_join_all();
+        while (sim_ctr_get(CTR_PENDING) > 0)
+        {
+          sim_flag_clear(g_idle_flag);
+          if (sim_ctr_get(CTR_PENDING) > 0) sim_flag_wait(g_idle_flag, YK_BLOCK);
+        }
+        rec("early_use_done");
+      }
+    }
+
     // ---- final construction
     static dzn::meta parent_meta{"parent", "Parent", nullptr, {}, {}, {}};
     bool fc_ok = false;
     try
     {
+      set_ctr(CTR_FCSTATE, 1);
       g_model.shell.final_construct(g_shell, &parent_meta, R.parent_mode == 0);
+      set_ctr(CTR_FCSTATE, 2);
       fc_ok = true;
       const dzn::meta* got = g_model.shell.comp_parent(g_comp);
       const dzn::meta* want = R.parent_mode == 0 ? nullptr : &parent_meta;
@@ -627,10 +866,12 @@ static void execute_run(int out_fd)
     }
     catch (const dzn::binding_error& e)
     {
+      set_ctr(CTR_FCSTATE, 3);
       rec("fc result=throw exc=binding_error what=" + sanitize(e.what()));
     }
     catch (const std::exception& e)
     {
+      set_ctr(CTR_FCSTATE, 3);
       rec("fc result=throw exc=other what=" + sanitize(e.what()));
     }
     if (!fc_ok && (R.probes & 2))
@@ -673,10 +914,13 @@ static void execute_run(int out_fd)
       }
     }
 
+    if (R.sibling == 2) sibling_setup();
+
     // ---- workload
     if (fc_ok)
     {
-      for (auto& t : R.tasks) sim_spawn(t.name.c_str(), &task_body, &t, 0, 0);
+      for (auto& t : R.tasks)
+        if (!t.pre) sim_spawn(t.name.c_str(), &task_body, &t, 0, 0);
       sim_join_all();
       while (sim_ctr_get(CTR_PENDING) > 0)
       {
@@ -687,10 +931,15 @@ static void execute_run(int out_fd)
       sim_join_finished();  // client/peer threads are joined (a real happens-before edge) before teardown
     }
 
+    sibling_check();
+
     // ---- teardown
     for (auto* p : std::vector<dzn::pump*>(g_pumps)) p->sim_stop();
     g_model.shell.destroy(g_shell);
     g_shell = nullptr;
+    if (g_sib_shell) g_model.shell.destroy(g_sib_shell);
+    g_sib_shell = nullptr;
+    g_sib.reset();
     upump.reset();
     sim_join_threads();
     rec("teardown_done tracked_copies=" + std::to_string(sim_ctr_get(CTR_TRACKED_COPIES)));
@@ -757,10 +1006,14 @@ static bool parse_run(const std::vector<std::string>& lines, Run& R)
     else if (kw == "TEMPLOG") is >> R.templog;
     else if (kw == "LAZYCOMP") is >> R.lazycomp;
     else if (kw == "IDQUERY") is >> R.idquery;
+    else if (kw == "SIBLING") is >> R.sibling;
+    else if (kw == "REENTRY") is >> R.reentry;
     else if (kw == "TASK")
     {
       TaskSpec t;
-      is >> t.name;
+      std::string flag;
+      is >> t.name >> flag;
+      t.pre = flag == "pre" ? 1 : 0;
       R.tasks.push_back(t);
     }
     else if (kw == "O" || kw == "Y" || kw == "W")
